@@ -16,7 +16,7 @@ RULE = (
     "asyncio.sleep inside mysensors.task replaced by a harness-resolved future, inline executor} x {json, pickle} "
     "x Hypothesis-generated states. Sequence: initial save, state change, FAULTY scheduled attempt, state change, "
     "clean attempt; and: the first save of a NEW process (good file of the previous run + an older stale backup next to it) with every operation failing. The faulty attempt is enumerated exhaustively per state: every file operation of the save "
-    "failing with OSError, every permission pre-check answering 'not writable', and every k-th call of the JSON encoder hook / Sensor.__getstate__ at which a "
+    "failing with OSError, every operation index from which EVERY later operation of the attempt fails (storage outage: the clean-up fails too), every permission pre-check answering 'not writable', and every k-th call of the JSON encoder hook / Sensor.__getstate__ at which a "
     "concurrent message (adds a node / a child / a value, or is the wake-up announcement of a smart-sleep node that has an uncovered child) is processed. Oracle: after the faulty attempt a fresh "
     "load yields the previously saved state or a complete newer one (never partial); 'not marked unsaved' implies "
     "'file == current state'; nothing escapes the timer callback / the save task stays alive and a further "
